@@ -12,7 +12,10 @@ BEGIN, END = "<!-- MATRIX-BEGIN -->", "<!-- MATRIX-END -->"
 
 def rows(pattern):
     out = []
-    for f in sorted(glob.glob(pattern)):
+    def natural(f):
+        m = re.search(r'dm(\d+)', f)
+        return (1, 0, f) if 'manual' in f else (0, int(m.group(1)) if m else 0, f)
+    for f in sorted(glob.glob(pattern), key=natural):
         for line in open(f):
             out.append(line.rstrip("\n").split("\t"))
     return out
@@ -20,7 +23,7 @@ def rows(pattern):
 
 # the newest result per (patch, check) wins
 det = {}
-for r in rows("/tmp/dm*.tsv"):
+for r in rows(os.path.join(ROOT, "seeded", "_results", "dm*.tsv")):
     det[(r[0], r[1])] = (r[2], r[3])
 
 lines = [BEGIN, "",
